@@ -3,40 +3,52 @@
 From TV Require Export Str.
 From TV.gen Require Export Kind.
 
-Inductive tree : Type :=
-| Leaf (k : kind) (text : str)
-| Inner (k : kind) (children : list tree).
+(* The four per-node flags of attr.rs (AttrStore). The Rust code keys them by Span, i.e. by node
+   identity; here every node carries its own flags. A freshly parsed tree has no_attrs everywhere;
+   Attr.annotate fills them in. *)
+Record attrs := mk_attrs {
+  a_disabled : bool;    (* is_format_disabled *)
+  a_comment : bool;     (* has_comment: some DIRECT child is a comment *)
+  a_multiline : bool;   (* is_multiline: a Space/BlockComment with LF somewhere below *)
+  a_flavor : bool;      (* is_multiline_flavor: the first Space child has a LF *)
+}.
+Definition no_attrs : attrs := mk_attrs false false false false.
 
-Definition kind_of (t : tree) : kind := match t with Leaf k _ => k | Inner k _ => k end.
-Definition text_of (t : tree) : str := match t with Leaf _ s => s | Inner _ _ => [] end.
-Definition children (t : tree) : list tree := match t with Leaf _ _ => [] | Inner _ cs => cs end.
+Inductive tree : Type :=
+| Leaf (k : kind) (text : str) (a : attrs)
+| Inner (k : kind) (children : list tree) (a : attrs).
+
+Definition kind_of (t : tree) : kind := match t with Leaf k _ _ => k | Inner k _ _ => k end.
+Definition text_of (t : tree) : str := match t with Leaf _ s _ => s | Inner _ _ _ => [] end.
+Definition children (t : tree) : list tree := match t with Leaf _ _ _ => [] | Inner _ cs _ => cs end.
+Definition attrs_of (t : tree) : attrs := match t with Leaf _ _ a => a | Inner _ _ a => a end.
 
 Definition is_kind (k : kind) (t : tree) : bool := kind_eqb (kind_of t) k.
 
 (* SyntaxNode::into_text *)
 Fixpoint into_text (t : tree) : str :=
   match t with
-  | Leaf _ s => s
-  | Inner _ cs => concat (map into_text cs)
+  | Leaf _ s _ => s
+  | Inner _ cs _ => concat (map into_text cs)
   end.
 
 (* SyntaxNode::erroneous *)
 Fixpoint erroneous (t : tree) : bool :=
   match t with
-  | Leaf k _ => kind_eqb k KError
-  | Inner k cs => kind_eqb k KError || existsb erroneous cs
+  | Leaf k _ _ => kind_eqb k KError
+  | Inner k cs _ => kind_eqb k KError || existsb erroneous cs
   end.
 
 Fixpoint tree_size (t : tree) : nat :=
   match t with
-  | Leaf _ _ => 1
-  | Inner _ cs => S (fold_right (fun c n => tree_size c + n)%nat 0%nat cs)
+  | Leaf _ _ _ => 1%nat
+  | Inner _ cs _ => S (fold_right (fun c n => tree_size c + n)%nat 0%nat cs)
   end.
 
 Fixpoint tree_height (t : tree) : nat :=
   match t with
-  | Leaf _ _ => 1
-  | Inner _ cs => S (fold_right (fun c n => Nat.max (tree_height c) n) 0%nat cs)
+  | Leaf _ _ _ => 1%nat
+  | Inner _ cs _ => S (fold_right (fun c n => Nat.max (tree_height c) n) 0%nat cs)
   end.
 
 Definition byte_size (t : tree) : N := byte_len (into_text t).
@@ -49,13 +61,13 @@ Definition has_comment_children (t : tree) : bool := existsb is_comment_node (ch
 (* A well-founded induction principle for trees with nested lists. *)
 Section TreeInd.
   Variable P : tree -> Prop.
-  Hypothesis Hleaf : forall k s, P (Leaf k s).
-  Hypothesis Hinner : forall k cs, Forall P cs -> P (Inner k cs).
+  Hypothesis Hleaf : forall k s a, P (Leaf k s a).
+  Hypothesis Hinner : forall k cs a, Forall P cs -> P (Inner k cs a).
   Fixpoint tree_ind' (t : tree) : P t :=
     match t with
-    | Leaf k s => Hleaf k s
-    | Inner k cs =>
-        Hinner k cs ((fix go (l : list tree) : Forall P l :=
+    | Leaf k s a => Hleaf k s a
+    | Inner k cs a =>
+        Hinner k cs a ((fix go (l : list tree) : Forall P l :=
                         match l with
                         | [] => Forall_nil P
                         | c :: l' => Forall_cons c (tree_ind' c) (go l')
